@@ -86,11 +86,11 @@ pub fn run_seeded(prop: &str, seed: u64, thorough: bool, keep_log: bool) -> (Tra
     let mut w = World::new(&nodes, cx).expect("set-up uses available back-ends only");
     let len = rng.range(profile.len_lo as u64, profile.len_hi as u64) as usize;
     let mut events = Vec::with_capacity(len + 1);
-    let mut enums = 0u32;
+    let mut gst = gen::GenState::default();
     for _ in 0..len {
         let ev = match gen::maybe_restart(&mut rng, &w) {
             Some(e) => e,
-            None => gen::gen_event(&mut rng, &w, &profile, &mut enums),
+            None => gen::gen_event(&mut rng, &w, &profile, &mut gst),
         };
         w.apply(&ev);
         events.push(ev);
